@@ -35,7 +35,7 @@ JudgeParse(r) ==
                   /\ (r.in = FmtUtc(c)) => good(c, 0)
         beyond == want.day > r.hi_day \/ (want.day = r.hi_day /\ want.sod > r.hi_sod)
         wall   == Shift([day |-> want.day, sod |-> want.sod], want.off).day
-        impl   == ImplParse(r.p, r.in, TRUE)
+        impl   == ImplParse(r.p, r.in, FALSE)        \* the code as it is (dev_h41 repaired by fix: 4d9b221)
     IN [v |-> IF ~self THEN "spec-inconsistent"
               ELSE IF ~want.ok THEN "ok-not-a-date-form"    \* nothing is demanded for other strings
               ELSE IF ~want.indom THEN "ok-outside-domain"
